@@ -38,7 +38,7 @@ def GoodRelease (verifyOk : Batch → Bool) (r : Release) : Prop :=
   ∃ b, r.batch = some b ∧ verifyOk b = true ∧
     Forall2 (SigFor r.db b.tx r.prev) b.diffs r.sigs ∧
     ∃ rows, r.staged = some { id := b.id, tid := b.tid, tx := b.tx, rows := rows } ∧
-      rows.map (·.key) = b.diffs.map (·.acct)
+      rows.map (·.key) = b.diffs.map (·.acct) ∧ Forall2 (RowFor r.db) b.diffs rows
 
 def Inv (verifyOk : Batch → Bool) (s : St) (g : Ghost) : Prop :=
   s.pending.map Batch.core = g.lastVerified.map Batch.core ∧
@@ -87,7 +87,7 @@ theorem inv_step (verifyOk : Batch → Bool) (s : St) (g : Ghost) (op : Op) (h :
         simp at hr
         rcases hr with hr | hr
         · subst hr
-          obtain ⟨b', rows, hb', hF, hs', hk, _⟩ := batchSign_ok _ _ _ _ _ hbs
+          obtain ⟨b', rows, hb', hF, hs', hk, _, hrf⟩ := batchSign_ok _ _ _ _ _ hbs
           -- b' is the pending batch with the Sign-message data attached
           cases hsp : s.pending with
           | none => simp [attachAux, hsp] at hb'
@@ -102,13 +102,15 @@ theorem inv_step (verifyOk : Batch → Bool) (s : St) (g : Ghost) (op : Op) (h :
               have hdf : bl.diffs = b0.diffs := (congrArg Batch.diffs hp).symm
               have hid : bl.id = b0.id := (congrArg Batch.id hp).symm
               have htid : bl.tid = b0.tid := (congrArg Batch.tid hp).symm
-              refine ⟨bl, rfl, hv bl hlv, ?_, rows, ?_, ?_⟩
+              refine ⟨bl, rfl, hv bl hlv, ?_, rows, ?_, ?_, ?_⟩
               · subst hb'
                 simpa [htx, hdf, attachAux] using hF
               · subst hb'
                 simp [hs', attachAux, htx, hid, htid]
               · subst hb'
                 simpa [hdf] using hk
+              · subst hb'
+                simpa [hdf, attachAux] using hrf
         · exact hl r hr
   | finalize id mf =>
     simp only [gstep, step, finalize]
